@@ -24,7 +24,10 @@ pub fn evaluate_const_expr(expr: &typed_ast::Expression) -> Result<Exponent> {
                 expr,
                 ..
             } => {
-                return Ok(-evaluate_const_expr(expr)?);
+                let value = evaluate_const_expr(expr)?;
+                return Ok(Rational::zero()
+                    .checked_sub(&value)
+                    .ok_or_else(|| TypeCheckError::OverflowInConstExpr(expr.full_span()))?);
             }
             typed_ast::Expression::UnaryOperator {
                 op: ast::UnaryOperator::Factorial(_),
